@@ -74,6 +74,8 @@ type NodeConfig struct {
 	TxPool            core.TxPoolConfig
 	// OpenDB opens (or re-opens) the database of the given context; the harness owns storage.
 	OpenDB func(ctx int) ethdb.Database
+	// CloseDB, if set, is called inside the bubble after the node stopped (durable engines).
+	CloseDB func()
 }
 
 var (
